@@ -9,6 +9,7 @@ that exhaustion is reported as too-many-retries when every attempt fails.
 -/
 import SeliumModel.Client.KeepAlive
 import SeliumModel.Client.KeepAliveSM
+import SeliumModel.Client.SharedConn
 
 namespace Selium.KeepAlive
 open Selium.Gen.KeepAlive
@@ -335,6 +336,86 @@ theorem c12_silent_exhaustion_hangs :
 
 end Selium.KeepAlive
 
+/-! ## The connection shared by all streams of a `Client` (`client/src/connection.rs`) -/
+namespace Selium.SharedConn
+open Selium.Gen.Connection
+
+/-- regenerated from `ClientConnection::reconnect`: a new connection is dialled only when the current one is closed -/
+theorem reconnect_only_if_closed : reconnectOnlyIfClosed = true := by decide
+
+/-- A stream that re-establishes itself does not disturb its siblings: whatever stream `i` does, a stream `j` that
+    was working (registered on the client's current, open connection) still is. -/
+theorem c12_sibling_recovery_does_not_disturb (s : St) (i j : Nat) (h : working s j) :
+    working (reestablish reconnectOnlyIfClosed s i) j := by
+  rw [reconnect_only_if_closed]
+  obtain ⟨hc, hr⟩ := h
+  have hrc : reconnect true s = s := by simp [reconnect, hc]
+  unfold reestablish working
+  rw [hrc]
+  refine ⟨hc, ?_⟩
+  simp only
+  by_cases hij : i = j
+  · subst hij
+    have hlt : i < s.regs.length := by
+      rcases Nat.lt_or_ge i s.regs.length with h | h
+      · exact h
+      · rw [List.getElem?_eq_none h] at hr; cases hr
+    simp [List.getElem?_set, hlt]
+  · simp [List.getElem?_set, hij, hr]
+
+/-- … and the stream that re-established itself works. -/
+theorem c12_reestablished_stream_works (s : St) (i : Nat) (hi : i < s.regs.length) :
+    working (reestablish reconnectOnlyIfClosed s i) i := by
+  rw [reconnect_only_if_closed]
+  unfold reestablish working reconnect
+  by_cases hc : s.closed = true
+  · simp [hc, List.getElem?_set, hi]
+  · have hc' : s.closed = false := by simpa using hc
+    simp [hc', List.getElem?_set, hi]
+
+theorem reestablish_length (b : Bool) (s : St) (i : Nat) : (reestablish b s i).regs.length = s.regs.length := by
+  unfold reestablish reconnect
+  split <;> simp
+
+theorem run_cons (b : Bool) (s : St) (x : Nat) (xs : List Nat) : run b s (x :: xs) = run b (reestablish b s x) xs := rfl
+
+/-- a working stream keeps working through any number of re-establishments of any streams -/
+theorem run_keeps_working (s : St) (order : List Nat) (j : Nat) (h : working s j) :
+    working (run reconnectOnlyIfClosed s order) j := by
+  induction order generalizing s with
+  | nil => exact h
+  | cons x xs ih => rw [run_cons]; exact ih _ (c12_sibling_recovery_does_not_disturb s x j h)
+
+/-- After a connection loss, in whatever order the streams of a client re-establish themselves (one after the other
+    under the connection's mutex; any stream any number of times), every stream that has done so works: all of them
+    end up registered on one and the same open connection. From any state — in particular the one a cut leaves. -/
+theorem c12_all_siblings_recover (order : List Nat) : ∀ (s : St),
+    ∀ j ∈ order, j < s.regs.length → working (run reconnectOnlyIfClosed s order) j := by
+  induction order with
+  | nil => intro s j hj; cases hj
+  | cons x xs ih =>
+    intro s j hj hlt
+    rw [run_cons]
+    by_cases hjx : j ∈ xs
+    · exact ih _ j hjx (by rw [reestablish_length]; exact hlt)
+    · have hx : j = x := by
+        simp only [List.mem_cons] at hj
+        rcases hj with h | h
+        · exact h
+        · exact absurd h hjx
+      subst hx
+      exact run_keeps_working _ xs j (c12_reestablished_stream_works s j hlt)
+
+/-- Why the guard matters: were every `reconnect()` to dial a new connection (dropping the one it replaces), two streams
+    of one client that lose their connection and re-establish themselves in turn would never both work — the second
+    one's reconnection cuts the first off again. -/
+theorem c12_unconditional_redial_cuts_siblings :
+    ¬ working (run false (cut { regs := [0, 0] }) [0, 1]) 0 ∧
+    working (run true (cut { regs := [0, 0] }) [0, 1]) 0 ∧ working (run true (cut { regs := [0, 0] }) [0, 1]) 1 := by
+  decide
+
+end Selium.SharedConn
+
 #print axioms Selium.KeepAlive.budgets_per_outage
 #print axioms Selium.KeepAlive.recoverable_classification
 #print axioms Selium.KeepAlive.reconnect_used_le
@@ -356,3 +437,11 @@ end Selium.KeepAlive
 #print axioms Selium.KeepAlive.drive_disconnected
 #print axioms Selium.KeepAlive.c12_exhaustion_is_reported
 #print axioms Selium.KeepAlive.c12_silent_exhaustion_hangs
+#print axioms Selium.SharedConn.reconnect_only_if_closed
+#print axioms Selium.SharedConn.c12_sibling_recovery_does_not_disturb
+#print axioms Selium.SharedConn.c12_reestablished_stream_works
+#print axioms Selium.SharedConn.reestablish_length
+#print axioms Selium.SharedConn.run_cons
+#print axioms Selium.SharedConn.run_keeps_working
+#print axioms Selium.SharedConn.c12_all_siblings_recover
+#print axioms Selium.SharedConn.c12_unconditional_redial_cuts_siblings
